@@ -60,3 +60,65 @@ func FuzzRoundTrip(f *testing.F) {
 		}
 	})
 }
+
+func fuzzExecSeeds(f *testing.F) {
+	n := 0
+	for _, c := range pgCorpusCases() {
+		if n++; n%9 == 0 && len(c.Path) < 120 && len(c.Doc) < 200 {
+			f.Add(c.Path, c.Doc, c.Opts.TZ)
+		}
+	}
+	for _, p := range concBasePool {
+		f.Add(p, concDocs[0], true)
+	}
+	for _, c := range partialCases()[:60] {
+		f.Add(c.Path, c.Doc, false)
+	}
+}
+
+func fuzzExecCase(pathText, doc string, tz bool) (ExecCase, bool) {
+	if len(pathText) > 300 || len(doc) > 400 {
+		return ExecCase{}, false
+	}
+	c := ExecCase{Path: pathText, Doc: doc, Opts: Opts{TZ: tz, HasVars: true, Vars: map[string]string{"x": `[1,2,3]`, "y": `1`, "h": `1e400`}, UseNumber: true}}
+	if _, err := Decode(doc, true); err != nil {
+		return c, false
+	}
+	return c, true
+}
+
+// FuzzTotal (C05): totality, purity and error classification for any accepted path on any document.
+func FuzzTotal(f *testing.F) {
+	fuzzExecSeeds(f)
+	f.Fuzz(func(t *testing.T, pathText, doc string, tz bool) {
+		if c, ok := fuzzExecCase(pathText, doc, tz); ok {
+			if v, _ := checkTotalFacts(c); v != nil {
+				t.Fatalf("%s", v.Msg)
+			}
+		}
+	})
+}
+
+// FuzzStory (C06): the five entry points agree on any accepted path and document.
+func FuzzStory(f *testing.F) {
+	fuzzExecSeeds(f)
+	f.Fuzz(func(t *testing.T, pathText, doc string, tz bool) {
+		if c, ok := fuzzExecCase(pathText, doc, tz); ok {
+			if v, _ := checkStoryFacts(c); v != nil {
+				t.Fatalf("%s", v.Msg)
+			}
+		}
+	})
+}
+
+// FuzzSilent (C08): WithSilent against the verbose run on any accepted path and document.
+func FuzzSilent(f *testing.F) {
+	fuzzExecSeeds(f)
+	f.Fuzz(func(t *testing.T, pathText, doc string, tz bool) {
+		if c, ok := fuzzExecCase(pathText, doc, tz); ok {
+			if v, _ := checkSilentFacts(c); v != nil {
+				t.Fatalf("%s", v.Msg)
+			}
+		}
+	})
+}
